@@ -216,6 +216,62 @@ def _exec_scenario(args):
     return out
 
 
+def _exec_hung(sc):
+    """Parallel evaluation with a per-query budget of 1 s in which the worker of the FIRST submitted query hangs (sleeps
+    13 s): the join (budget + 10 s) terminates it. Real time; keys are chosen so that positions and keys differ."""
+    import impl
+    import tracer
+    from inference.inference_manager import InferenceManager
+    from inference.queries import Queries
+
+    s_, be, weakly = sc["cfg"]
+    out = {"sc": sc, "truth": [], "events": [], "error": None}
+    try:
+        mk = lambda: M.make_base(sc["sig"], {i + 1: c for i, c in enumerate(sc["base"])})
+        for c in sc["pool"]:
+            r = impl.ask(mk(), M.make_queries({1: c}), s_, be, weakly)
+            if r["raised"] or len(r["obs"]) != 1:
+                out["error"] = f"reference run failed: {r['exc']}"
+                return out
+            out["truth"].append(r["obs"][0])
+        os.makedirs(os.path.join(BUILD, "traces"), exist_ok=True)
+        fd, path = tempfile.mkstemp(prefix="htrace_", suffix=".ndjson", dir=os.path.join(BUILD, "traces"))
+        os.close(fd)
+        tracer.install(path)
+        try:
+            mgr = InferenceManager(mk(), impl.SYSNAME[s_], pmaxsat_solver=be or "rc2", weakly=weakly)
+            conds = {}
+            for pos, key in enumerate(sc["keys"]):
+                cc = M.make_conditional(*sc["pool"][pos])
+                cc._vq = pos + 1
+                cc._vdelay = 13.0 if pos == 0 else 0
+                conds[key] = cc
+            try:
+                impl.with_limit(120, mgr.inference, Queries(conds), inference_timeout=1, multi_inference=True)
+            except BaseException as e:
+                if isinstance(e, (KeyboardInterrupt, SystemExit)):
+                    raise
+            try:  # follow-up: sequential, no budget
+                conds2 = {}
+                for pos, key in enumerate(sc["keys"]):
+                    cc = M.make_conditional(*sc["pool"][pos])
+                    cc._vq = pos + 1
+                    conds2[key] = cc
+                impl.with_limit(120, mgr.inference, Queries(conds2))
+            except BaseException as e:
+                if isinstance(e, (KeyboardInterrupt, SystemExit)):
+                    raise
+        finally:
+            tracer.uninstall()
+        out["events"] = tracer.read_events(path)
+        os.unlink(path)
+    except BaseException as e:
+        if isinstance(e, (KeyboardInterrupt, SystemExit)):
+            raise
+        out["error"] = "harness: " + type(e).__name__ + ": " + str(e)[:300]
+    return out
+
+
 def to_trace(sc, truth, events):
     evs = []
     ptime = 0
@@ -278,6 +334,25 @@ def run(chk: Check, tier: str):
     chk.cov["scenarios"] = len(scen)
     chk.cov["observation_points_per_scenario"] = [{"config": r["sc"]["cfg"], "budgets_s": r["sc"]["budgets"], "clock_reads": r["points"][0], "optimize_checks": r["points"][1]} for r in results if not r["error"]]
     chk.cov["faults_fired"] = points
+    # ---- hung worker under parallel evaluation (real time, ~12 s, run concurrently)
+    hung = []
+    for cfg in [("p", "", False), ("w", "rc2", False), ("c", "rc2", False)][: (3 if tier == "quick" else 3)]:
+        sc = None
+        while sc is None:
+            sc = gen_scenario(rng, cfg)
+        sc["keys"] = [5, 0, 7][: len(sc["pool"])]
+        sc["budgets"] = [0, 0, 1]
+        hung.append(sc)
+    for r in infer.pool_map(_exec_hung, hung, chunksize=1):
+        if r["error"]:
+            if r["error"].startswith("reference"):
+                continue
+            machinery_failure(r["error"])
+        traces.append(to_trace(r["sc"], r["truth"], r["events"]))
+        idx.append((r, {"fault": ["hung-worker", 1], "fired": True, "events": r["events"]}))
+        chk.nontrivial([r["sc"]["cfg"], "hung-worker", [M.render_cond(*c) for c in r["sc"]["base"]]])
+        chk.add_eval(1)
+    chk.cov["hung_worker_runs"] = len(hung)
     rej = manager.validate_traces(chk, traces, "faults", module="Trace_Budget", invariants=("TraceSafe", "TraceNoRaise"))
     for rj in rej:
         r, run_ = idx[rj["reject"] - 1]
@@ -292,7 +367,8 @@ def run(chk: Check, tier: str):
         "MC_Budget: every budget triple over {0,1,5} s, preprocessing durations below/at/above the budgets, every placement of time-outs over the queries of <= 1 (2) calls. "
         "Real code: per scenario (operator x back-end x mode, multi-layer base over 3-4 atoms, batch of 3, budget triple, virtual preprocessing duration) a dry run under the virtual clock counts "
         "the observation points; then for EVERY k (stratified above the cap) the k-th read of the deadline clock jumps past all deadlines, and for every k the k-th z3 Optimize.check returns unknown; "
-        "each faulted call is followed by an un-budgeted call on the same manager; one parallel run per scenario. Every trace (call with budgets, Deadline durations, prep, answer, return/raise) "
+        "each faulted call is followed by an un-budgeted call on the same manager; one parallel run per scenario; three parallel runs (real time) in which the worker of the "
+        "first submitted query hangs beyond budget + 10 s and is terminated by the join (keys 5, 0, 7 so that positions and keys differ). Every trace (call with budgets, Deadline durations, prep, answer, return/raise) "
         "is validated by TLC against Budget.tla. Non-trivial = faulted run whose fault actually fired; distinct by (scenario, fault)."
     )
     chk.assumptions += ["a solver time-out is simulated by the `unknown` result of Optimize.check, the only form in which the code can observe it",
